@@ -172,8 +172,16 @@ Definition into_simple_recipe (r : crecipe) : brecipe :=
      br_tms := map tm_from (cr_tms r) |}.
 
 (* ---- lib.rs 43-72: deref_* ([index as usize] of a u32 is the identity) *)
+(* slice::get with an index that is a binary number (no detour through unary [nat]: the extracted
+   model must run on indices such as u32::MAX); Proofs/BindingsProofs.v: [nth_N l i = nth_error l (N.to_nat i)] *)
+Fixpoint nth_N {A} (l : list A) (i : N) : option A :=
+  match l with
+  | [] => None
+  | x :: r => if i =? 0 then Some x else nth_N r (N.pred i)
+  end.
+
 Definition nth_or_panic {A} (l : list A) (i : N) (site : N) : outcome A :=
-  match nth_error l (N.to_nat i) with Some a => Done a | None => Panic site end.
+  match nth_N l i with Some a => Done a | None => Panic site end.
 
 Definition deref_ingredient (r : brecipe) (i : N) : outcome bing := nth_or_panic (br_ings r) i site_deref_ingredient.
 Definition deref_cookware (r : brecipe) (i : N) : outcome bcw := nth_or_panic (br_cws r) i site_deref_cookware.
@@ -284,7 +292,7 @@ Fixpoint expand_with_ingredients (ings : list bing) (base : ilist) (addition : l
   match addition with
   | [] => Done base
   | idx :: r =>
-      match nth_error ings (N.to_nat idx) with
+      match nth_N ings idx with
       | None => Panic site_expand_unwrap
       | Some ing =>
           obind (add_to_ingredient_list base (bi_name ing) (into_group_quantity (bi_amount ing)))
